@@ -187,8 +187,9 @@ class Runner:
             rcs.append(rc)
             outs.append(out)
         bad = [i for i, r in enumerate(rcs) if r != 0]
-        if len(bad) == 3:
-            return True, fail_summary(outs[0]), rcs[0], outs[0]
+        # sanitizer reports from free-running threads (TSan targets) are probabilistic: such targets accept fewer than 3 of 3
+        if len(bad) >= t.spec.get('repro_min', 3):
+            return True, fail_summary(outs[bad[0]]), rcs[bad[0]], outs[bad[0]]
         if bad:
             return False, 'flaky: %d/3 replays failed: %s' % (len(bad), fail_summary(outs[bad[0]])), rcs[bad[0]], outs[bad[0]]
         return False, 'not reproducible', 0, ''
